@@ -48,7 +48,7 @@ func spec_rhsText(rp []*parser.Idendity, n int) string { panic("spec") }
 //@     (forall i int :: 0 <= i && i < len(v.G.Symbols) ==> v.G.Symbols[i] != nil)
 
 //@ func (*TemplateBuilder).buildConstPart
-//@ props C06 C08 C11 C19
+//@ props C06 C08 C11 C19 C05 C01 C02
 //@ requires b != nil && wfBuilder(b.vnode)
 //@ requires forall k string :: has(b.vnode.idsymtabl, k) ==> b.vnode.idsymtabl[k] != nil
 //@ emits [C06,C08] "const ERROR_ACTION = %d" arg1 == len(b.vnode.G.LR0.LR0Closure) + 100
@@ -57,7 +57,7 @@ func spec_rhsText(rp []*parser.Idendity, n int) string { panic("spec") }
 //@ emits [C11] "const %s = %d" arg2 == identifier.Value
 //@ emits [C11] "const %s = %d" assert identifier.IDTyp == parser.TERMID
 //@ ensures [C19] b.CodeLast == b.vnode.CodeCpy
-//@ ensures [C05,C08] b.NTerminals == len(b.vnode.G.VtSet)
+//@ ensures [C05,C08,C01,C02,C06] b.NTerminals == len(b.vnode.G.VtSet)
 
 //@ func (*TsBuilder).buildConstPart
 //@ props C06 C08 C11
